@@ -130,7 +130,7 @@ def run(ctx):
            must_cover=("Identity", "ReadBlock", "BranchSrc", "BranchFC", "BranchFR", "BranchSeq", "BlockDone", "Final"))
     ctx.mc("SplitCT", "SplitCT_mc.cfg", coverage=True, must_cover=("FillOne", "Compute", "Request", "Call"))
     if ctx.thorough:
-        ctx.mc("Split", "Split_sim.cfg", simulate=30000, depth=60, workers=8)
+        ctx.mc("Split", "Split_deep.cfg")   # 4 branches over the 7-kind alphabet, exhaustive
     recs = ctx.export("Split", "Split_%s_export.cfg" % tag, min_records=1000)
     for rec in recs:
         replay_run(ctx, rec)
